@@ -246,6 +246,10 @@ class MibCompiler(object):
             # has a source answered this name with a file that holds modules
             sourceAnswered = False
 
+            # has a source held the module of this name in a state that no
+            # symbol table could be built from
+            moduleFailed = False
+
             # a name that has been looked up as a file name goes on, as a
             # module name, where that search ended
             for source in self._sources[sourcesAsked.get(mibname, 0):]:
@@ -327,6 +331,7 @@ class MibCompiler(object):
                                 # this failure takes the place of an earlier
                                 # source's
                                 sourceFailed = False
+                                moduleFailed = True
 
                             if requested:
                                 # part of a requested file, as its sound
@@ -400,6 +405,11 @@ class MibCompiler(object):
 
                     debug.logger & debug.flagCompiler and debug.logger('%serror %s from %s' % (
                         options.get('ignoreErrors') and 'ignoring ' or 'failing on ', exc, source))
+
+                    if moduleFailed:
+                        # an earlier source holds the module and its symbol
+                        # table could not be built: that failure stands
+                        continue
 
                     failedMibs[mibname] = exc
 
